@@ -17,7 +17,7 @@ import os
 import re
 import vlib
 
-PROOFS = ["MgProof.C01.Lemmas", "MgProof.C01.StepLemmas", "MgProof.C01.InvW", "MgProof.C01.InvR", "MgProof.C01.Once", "MgProof.C01.Props"]
+PROOFS = ["MgProof.C01.Lemmas", "MgProof.C01.StepLemmas", "MgProof.C01.InvW", "MgProof.C01.InvR", "MgProof.C01.Once", "MgProof.C01.HB", "MgProof.C01.Props"]
 GREP = ["MgModel/C01", "MgProof/C01", "MgModel/Common", "Drv/C01.lean"]
 REPO_SRCS = ["muggle/c/sync/channel.c", "muggle/c/sync/array_blocking_queue.c", "muggle/c/sync/double_buffer.c",
              "muggle/c/sync/spinlock.c", "muggle/c/sync/synclock.c", "muggle/c/sync/mutex.c",
